@@ -79,7 +79,7 @@ struct TrustSim {
 	void setup() {
 		K.reset(1600000000000LL);
 		N.reset(); C.reset();
-		bw.setup(2, 1, 8, 6, plan.c("aggr_http", 0) != 0, plan.c("ext_http", 0) != 0);
+		bw.setup(plan.c("pdu_ver", 2) == 1 ? 1 : 2, 1, 8, 6, plan.c("aggr_http", 0) != 0, plan.c("ext_http", 0) != 0);
 		bw.install_hooks();
 		// rounds: one per signature kind, plus filler rounds so that publication times lie between / after them
 		World &w = bw.world;
@@ -325,6 +325,7 @@ struct TrustEngine : run::Engine {
 		p.cfg["adv"] = g.chance(1, 4) ? 0 : 1;
 		p.cfg["faults"] = g.chance(1, 2) ? 0 : 1;
 		p.cfg["ttl"] = g.chance(1, 3) ? 3600 : 0;
+		p.cfg["pdu_ver"] = g.chance(1, 4) ? 1 : 2;
 		p.cfg["loglevel"] = g.chance(1, 6) ? 5 : 0;
 		p.cfg["epoch_ms"] = (int64_t)g.below(1000);
 		int n = tier ? (int)g.range(2, 12) : (int)g.range(1, 4);
@@ -337,7 +338,7 @@ struct TrustEngine : run::Engine {
 		return p;
 	}
 	run::RunResult execute(const run::Plan &p, bool trace) override { TrustSim s(p); return s.run(trace); }
-	std::map<std::string, int64_t> neutral_cfg() const override { return {{"aggr_http", 0}, {"ext_http", 0}, {"loglevel", 0}, {"epoch_ms", 0}, {"ttl", 0}}; }
+	std::map<std::string, int64_t> neutral_cfg() const override { return {{"aggr_http", 0}, {"ext_http", 0}, {"loglevel", 0}, {"epoch_ms", 0}, {"ttl", 0}, {"pdu_ver", 2}}; }
 	std::string state_measure() const override { return "(signature kind, policy, user publication kind, extending allowed, extender behaviour, transport fault, publications file in effect, verdict, error code) of every verification"; }
 	std::string nontrivial_rule() const override { return "a run is non-trivial when at least one verification met an adversarial extender behaviour, a transport fault, a deviating publications file or a contradicting / unusable user publication; distinct = distinct event-log hash"; }
 };
